@@ -10,6 +10,13 @@ from pytestarch.eval_structure_generation.file_import.import_types import (
     RelativeImport,
 )
 
+# match_case is only available from python 3.10 onwards
+_NODES_CONTAINING_STATEMENTS = tuple(
+    getattr(ast, name)
+    for name in ("stmt", "excepthandler", "match_case")
+    if hasattr(ast, name)
+)
+
 
 class ImportConverter:
     """Converts all ast imports to custom import types."""
@@ -38,9 +45,14 @@ class ImportConverter:
 
             ast_module, module_name = module.module, module.name
 
-            if hasattr(ast_module, "body"):
+            if not isinstance(ast_module, (ast.Import, ast.ImportFrom)):
+                # imports can be nested in any statement list: body, orelse, finalbody, exception handlers, match cases
                 module_to_search.extend(
-                    [NamedModule(m, module_name) for m in ast_module.body]  # type: ignore
+                    [
+                        NamedModule(m, module_name)  # type: ignore
+                        for m in ast.iter_child_nodes(ast_module)
+                        if isinstance(m, _NODES_CONTAINING_STATEMENTS)
+                    ]
                 )
             else:
                 new_imports = self._convert(
